@@ -14,7 +14,7 @@ reg(Spec(
     args_thorough=["-n", "4000", "-nc", "1500"],
     args_search=["-n", "3000", "-nc", "1000"],
     assumptions=[
-        "component names are abstracted to numbers; the Go map is an association list without duplicate keys",
+        "component names are abstracted to numbers in the model; the Go map is an association list without duplicate keys. The harness draws the NAME of each number per case (harness/health/names.go: plain names, the implementation's own words - verdict key, status words, empty string - and near misses of them, JSON/HTML-significant text, non-ASCII, names up to 70 KiB; valid UTF-8, pairwise distinct) and asks every state several times (Go's map iteration order); a component NAMED like the verdict key has no entry of its own in the body (one JSON object: the verdict is written last) - status code, verdict and IsReady must be those of the history all the same, the body lists the other components (Model/Health.v: obs_matches_sh)",
         "one GenericSyncMap method call = one critical section (checked: the request's lock trace must be [Len; Iterate])",
         "WaitForReady's select is modelled as the sequence of arms taken; wall-clock polling is observed, not proved",
         "overlapping registrations / ready-marks (one paused before each of its lock acquisitions while others run completely): IsReady, a WaitForReady started afterwards (watched 5 ms when it must not complete, 2 s when it must) and /readyz must all be the sequential model's answers for ONE order of the overlapping calls; oracle only, no Coq case files",
@@ -135,7 +135,8 @@ reg(Spec(
     args_search=["-n", "2000"],
     assumptions=[
         "files are byte lists on an in-memory file system behind the package's own fileSystem/fsWatcher seams; each fsnotify event carries one op bit and is processed before the next change (enforced by a barrier event)",
-        "no file-system errors (the backoff/retry path is not modelled); no events during start-up; truncation is to length 0",
+        "no file-system errors (the backoff/retry path is not modelled); truncation is to length 0",
+        "events during start-up: the model has none; the harness delivers them (appends to audit.log with their Write events, empty Writes, Chmod, other names; before the first Open, while an older file is read, right when the read of audit.log starts, after some or all of its lines; offered while nobody receives from Lines()) and judges by the oracle: by the first Write event processed after start-up every complete line of the initial files and of what was appended meanwhile has been delivered exactly once, in order; for the model such a case is the directory with those appends already in audit.log",
         "names: audit.log, audit.log.<n> (n unbounded), others filtered; names with a non-decimal suffix and leading-zero duplicates are not modelled",
     ],
     modelled=["processors/auditd/dirreader/dirreader.go (sortLogNamesOldToNew, loopWithError, rotatingFile.read, readFilePathLines, readLines)"],
